@@ -19,7 +19,8 @@ def main(pid, tier):
         ck.add_tlc(r, "EmuMC/%s (%s tasks)" % (cfg, name))
         if r.violated:
             ck.violation("model %s violates %s" % (cfg, r.violated), {"tlc.out": r.out[-20000:]})
-        emuhist.conformance(ck, bdir, g, tier, limit_quick=12000, limit_thorough=None, label="C07/" + name)
+        emuhist.conformance(ck, bdir, g, tier, limit_quick=12000, limit_thorough=None, label="C07/" + name,
+                            pairs=600 if tier == "quick" else 20000, pair_same=emuhist.same_category)
     ck.phase("transition_cover")
     try:
         from checks import taskmod
